@@ -228,6 +228,14 @@ class SLCDriver(CIPDriver):
         # a bit write lowers data_size to the 2 bytes of mask data, do it before the size is used
         _value = writeable_value(_tag, value)
 
+        sub_element = int(_tag.get("pos_number", 0))
+        if _tag["file_type"] in ("T", "C") and int(_tag.get("sub_element") or 0) in (
+            PCCC_CT["PRE"],
+            PCCC_CT["ACC"],
+        ):
+            # preset and accumulator are words 1 and 2 of the element, word 0 holds the status bits
+            sub_element = int(_tag["sub_element"])
+
         message_request = [
             self._msg_start(),
             SLC_CMD_CODE,
@@ -238,7 +246,7 @@ class SLCDriver(CIPDriver):
             USINT.encode(int(_tag["file_number"])),
             PCCC_DATA_TYPE[_tag["file_type"]],
             USINT.encode(int(_tag["element_number"])),
-            USINT.encode(int(_tag.get("pos_number", 0))),
+            USINT.encode(sub_element),
             _value,
         ]
         request = SendUnitDataRequestPacket(self._sequence)
